@@ -173,7 +173,10 @@ func (pubKey PubKeySM2) VerifyBytes(msg []byte, sig crypto.Signature) bool {
 		return false
 	}
 
-	pub := sm2.Decompress(pubKey[0:SM2PublicKeyCompressed])
+	pub := decompressPubKey(pubKey[0:SM2PublicKeyCompressed])
+	if pub == nil {
+		return false
+	}
 	r, s, err := Deserialize(sigSM2)
 	if err != nil {
 		fmt.Printf("unmarshal sign failed")
@@ -181,6 +184,21 @@ func (pubKey PubKeySM2) VerifyBytes(msg []byte, sig crypto.Signature) bool {
 	}
 
 	return sm2.Sm2Verify(pub, msg, uid, r, s)
+}
+
+// decompressPubKey returns nil for bytes that are not a point of the curve
+// (sm2.Decompress dereferences a nil square root for them)
+func decompressPubKey(b []byte) (pub *sm2.PublicKey) {
+	defer func() {
+		if r := recover(); r != nil {
+			pub = nil
+		}
+	}()
+	pub = sm2.Decompress(b)
+	if pub == nil || pub.X == nil || pub.Y == nil {
+		return nil
+	}
+	return pub
 }
 
 func (pubKey PubKeySM2) String() string {
